@@ -477,8 +477,14 @@ impl<'r> PG<'r> {
             "var_eq" => {
                 // comparisons and membership tests between context-held (shared) collections
                 let t = *self.r.pick(&[Ty::ListInt, Ty::ListInt, Ty::ListStr, Ty::ListList, Ty::MapStrInt]);
-                let a = self.gen(t, 0);
-                let b = self.gen(t, 0);
+                // operands: context variables, or values the host holds from earlier executions (`pick`)
+                let held = self.r.chance(1, 2);
+                let (a, b) = if held {
+                    self.order_sensitive = true;
+                    (G::Call("pick".into(), None, vec![lit_int(self.r)]), G::Call("pick".into(), None, vec![lit_int(self.r)]))
+                } else {
+                    (self.gen(t, 0), self.gen(t, 0))
+                };
                 match self.r.below(4) {
                     0 => (G::Bin("!=".into(), Box::new(a), Box::new(b)), Ty::Bool),
                     1 if t == Ty::ListInt => (G::Bin("in".into(), Box::new(a), Box::new(self.gen(Ty::ListList, 0))), Ty::Bool),
@@ -1001,7 +1007,17 @@ fn gen_ops(r: &mut Rng, lim: &Limits, n_programs: usize, execs: u64, root_names:
     let mut done = 0u64;
     let mut last_prog = r.usize(n_programs);
     let _ = lim;
+    // workloads that hammer comparisons of held collections also edit and duplicate what they hold more often
+    let cmp_focus = FOCUS.with(|f| f.borrow().contains(&"var_eq"));
     while done < execs {
+        if cmp_focus && r.chance(1, 8) {
+            if r.chance(1, 2) {
+                ops.push(Op::MutateRetained(r.usize(8)));
+            } else {
+                ops.push(Op::DupRetained(r.usize(8)));
+            }
+            continue;
+        }
         match r.below(100) {
             0..=54 => {
                 let prog = if r.chance(3, 10) { last_prog } else { r.usize(n_programs) };
@@ -1050,8 +1066,8 @@ fn gen_ops(r: &mut Rng, lim: &Limits, n_programs: usize, execs: u64, root_names:
                 };
                 ops.push(Op::Define { name: name.to_string(), src });
             }
-            79..=80 => ops.push(Op::DropRetained(r.usize(8))),
-            81 => ops.push(Op::MutateRetained(r.usize(8))),
+            79 => ops.push(Op::DropRetained(r.usize(8))),
+            80..=81 => ops.push(Op::MutateRetained(r.usize(8))),
             82..=88 => ops.push(Op::HostAdd(r.usize(8), r.usize(8), r.chance(1, 3))),
             89..=94 => {
                 let name = if r.chance(1, 5) { "zz".to_string() } else { r.pick(NAMES).0.to_string() };
